@@ -312,9 +312,9 @@ Proof.
 Qed.
 
 Theorem lhs_leibniz x r : wf_id x = true -> lastc "d" x <> "d" -> notin "=" r = true ->
-  classify_gen true ("d" :: x ++ s2l "/dt = " ++ r) = de_eqn x r.
+  classify ("d" :: x ++ s2l "/dt = " ++ r) = de_eqn x r.
 Proof.
-  intros W L N. unfold classify_gen.
+  intros W L N. unfold classify, classify_gen.
   replace ("d" :: x ++ s2l "/dt = " ++ r) with ((("d" :: x) ++ s2l "/dt") ++ s2l " = " ++ r)
     by (rewrite <- !app_assoc; reflexivity).
   assert (NS : notin "/" ("d" :: x) = true) by (simpl; apply wf_id_notin; auto).
@@ -337,14 +337,15 @@ Proof.
 Qed.
 
 Example lhs_leibniz_refuted_dd :
-  classify_gen true (s2l "dd/dt = r") = CEqn {| e_lhs := []; e_key := []; e_de := true; e_rhs := s2l "r"; e_asg := ["="] |}.
+  classify (s2l "dd/dt = r") = CEqn {| e_lhs := []; e_key := []; e_de := true; e_rhs := s2l "r"; e_asg := ["="] |}.
 Proof. vm_compute. reflexivity. Qed.
 
 Example classify_other_forms :
   classify (s2l "x += 2*r") = CEqn {| e_lhs := s2l "x"; e_key := s2l "x"; e_de := false; e_rhs := s2l "2*r"; e_asg := s2l "+=" |} /\
   classify (s2l "x -= 1") = CEqn {| e_lhs := s2l "x-"; e_key := s2l "x-"; e_de := false; e_rhs := s2l "1"; e_asg := ["="] |} /\
   classify (s2l "r + 1") = CEqn {| e_lhs := s2l "x"; e_key := s2l "x"; e_de := false; e_rhs := s2l "r + 1"; e_asg := ["="] |} /\
-  classify (s2l "d/dt * x += r") = CValueError /\ classify (s2l "dx/dt = r") = CRaises.
+  classify (s2l "d/dt * x += r") = CValueError /\
+  classify (s2l "dx/dt = r") = de_eqn (s2l "x") (s2l "r") /\ classify_gen false (s2l "dx/dt = r") = CRaises.
 Proof. repeat split; vm_compute; reflexivity. Qed.
 
 
